@@ -1,0 +1,60 @@
+// Copyright (c) 2026 10X Genomics, Inc. All rights reserved.
+
+//go:build verif
+
+package core
+
+// Hooks for the external verification harness (C06): a VerifJobManager that
+// has a queue query, as cluster-mode job managers do, so that
+// Pipestance.queryQueue / Metadata.failNotRunning / endRefresh — the
+// mechanism which fails a job that vanished without leaving any file — can be
+// driven in process; and control over the five-minute spacing of the queries.
+
+import (
+	"context"
+	"strings"
+	"time"
+)
+
+// VerifQueueJobManager answers queue queries through OnCheckQueue.
+type VerifQueueJobManager struct {
+	*VerifJobManager
+	// OnCheckQueue receives the job ids mrp asks about and returns those the
+	// "scheduler" still knows (queued or running).
+	OnCheckQueue func(ids []string) []string
+}
+
+func (self *VerifQueueJobManager) checkQueue(ids []string, _ context.Context) ([]string, string) {
+	if self.OnCheckQueue == nil {
+		return ids, ""
+	}
+	out := self.OnCheckQueue(append([]string(nil), ids...))
+	return out, strings.Join(out, "\n")
+}
+func (self *VerifQueueJobManager) hasQueueCheck() bool            { return true }
+func (self *VerifQueueJobManager) queueCheckGrace() time.Duration { return 0 }
+
+// VerifNewQueueRuntime is VerifNewRuntime with a job manager that has a queue query.
+func VerifNewQueueRuntime(opts *RuntimeOptions, jm *VerifQueueJobManager) (*Runtime, error) {
+	rt, err := VerifNewRuntime(opts, jm.VerifJobManager)
+	if err != nil {
+		return nil, err
+	}
+	rt.JobManager = jm
+	return rt, nil
+}
+
+// VerifAllowQueueCheck makes the next CheckHeartbeats query the queue (as if
+// five minutes had passed since the last query).
+func (self *Pipestance) VerifAllowQueueCheck() {
+	self.queueCheckLock.Lock()
+	self.lastQueueCheck = time.Time{}
+	self.queueCheckLock.Unlock()
+}
+
+// VerifQueueCheckIdle reports that no queue query is in progress.
+func (self *Pipestance) VerifQueueCheckIdle() bool {
+	self.queueCheckLock.Lock()
+	defer self.queueCheckLock.Unlock()
+	return !self.queueCheckActive
+}
